@@ -27,6 +27,8 @@ fn collect_deps(
 	resolver: &FileImportResolver,
 	source: &SourcePath,
 	deps: &mut BTreeSet<String>,
+	// Files whose own imports were already collected
+	expanded: &mut BTreeSet<String>,
 ) -> Result<(), String> {
 	let contents = resolver
 		.load_file_contents(source)
@@ -49,8 +51,10 @@ fn collect_deps(
 			.resolve_from(source, &&*path)
 			.map_err(|e| format!("{e}"))?;
 		let path_str = format!("{resolved}");
-		if deps.insert(path_str) && expression {
-			collect_deps(resolver, &resolved, deps)?;
+		deps.insert(path_str.clone());
+		// A file first seen through importstr/importbin may be imported as code later
+		if expression && expanded.insert(path_str) {
+			collect_deps(resolver, &resolved, deps, expanded)?;
 		}
 	}
 
@@ -69,7 +73,9 @@ fn main() {
 		});
 
 	let mut deps = BTreeSet::new();
-	if let Err(e) = collect_deps(&resolver, &source, &mut deps) {
+	let mut expanded = BTreeSet::new();
+	expanded.insert(format!("{source}"));
+	if let Err(e) = collect_deps(&resolver, &source, &mut deps, &mut expanded) {
 		eprintln!("{e}");
 		exit(1);
 	}
